@@ -352,6 +352,7 @@ func (bs *blockState) load(lv lvalue, ins ssa.Instruction) Val {
 	if lv.kind != "cell" {
 		// every stored Go value is within the range of its type
 		bs.e.assume(bs.g, bs.e.typeFacts(v))
+		bs.e.assume(bs.g, bs.e.allocatedFacts(bs.st, v))
 	}
 	return v
 }
